@@ -8,6 +8,7 @@ models depend on and writes them as Z definitions (name -> value):
     integer constant expression (literals, + - * / ( ), sizeof(<fixed width
     type>), earlier constants); string constants are skipped; the TxType enum
     becomes TX_TYPE_<NAME>.
+  * include/veriblock/pop/ct_params.hpp : ALT_HASH_SIZE (configured at build time)
   * include/veriblock/pop/entities/address.hpp : enum AddressType -> ADDRESS_TYPE_<NAME>
   * src/pop/entities/address.cpp : MULTISIG_* / STARTING_CHAR constants (chars as codes)
 Fails closed (exit 1, nothing written) when a constant named in REQUIRED is
@@ -31,7 +32,7 @@ REQUIRED = [
     "VTB_ID_SIZE", "ATV_ID_SIZE", "VBK_ID_SIZE", "VBK_PUBLICATIONDATA_SIZE",
     "VBK_HEADER_SIZE_VBLAKE", "VBK_HEADER_SIZE_PROGPOW", "MAX_LAYER_COUNT_MERKLE", "MAX_OUTPUTS_COUNT",
     "MAX_SIGNATURE_SIZE", "MAX_PUBLIC_KEY_SIZE", "VBK_ADDRESS_SIZE", "ADDRESS_POP_DATA_SIZE_PROGPOW",
-    "TX_TYPE_VBK_TX", "TX_TYPE_VBK_POP_TX", "ADDRESS_TYPE_STANDARD", "ADDRESS_TYPE_MULTISIG",
+    "ALT_HASH_SIZE", "TX_TYPE_VBK_TX", "TX_TYPE_VBK_POP_TX", "ADDRESS_TYPE_STANDARD", "ADDRESS_TYPE_MULTISIG",
 ]
 
 SIZEOF = {"int8_t": 1, "uint8_t": 1, "char": 1, "int16_t": 2, "uint16_t": 2, "int32_t": 4, "uint32_t": 4,
@@ -134,6 +135,9 @@ def main():
         return strip_comments(open(p).read())
     consts = rd("include/veriblock/pop/consts.hpp")
     parse_consts(consts, env, skipped, order)
+    ct = os.path.join(repo, "include/veriblock/pop/ct_params.hpp")
+    if os.path.exists(ct):
+        parse_consts(strip_comments(open(ct).read()), env, skipped, order)
     parse_enum(consts, "TxType", "TX_TYPE_", env, order)
     parse_enum(rd("include/veriblock/pop/entities/address.hpp"), "AddressType", "ADDRESS_TYPE_", env, order)
     acpp = rd("src/pop/entities/address.cpp")
